@@ -63,6 +63,9 @@ func generic(in *lexgen.Input, toks []models.TokenWithSpan, cmts []models.Commen
 		}
 		if !lexgen.LocLE(s, e) {
 			f.add("pos:start-after-end:"+kind, fmt.Sprintf("%s starts at %s and ends at %s", desc, locStr(s), locStr(e)))
+		} else if kind != "eof" && s == e {
+			// a token or comment is at least one character long, whatever the column unit
+			f.add("pos:empty-span:"+kind, fmt.Sprintf("%s starts and ends at %s", desc, locStr(s)))
 		}
 	}
 	for i, t := range toks {
@@ -305,12 +308,30 @@ func cmtIndex(in *lexgen.Input, item int) int {
 }
 
 func report(c *common.Ctx, eval func(tok func(string) lexgen.Run) ([]fail, string)) {
-	fs, out := eval(lexgen.TokenizeShared)
+	// every text is tokenized through both entry points; the oracle is evaluated on Tokenize's
+	// result and, whenever TokenizeContext observed anything different, on that one as well
+	diverged := false
+	fs, out := eval(func(text string) lexgen.Run {
+		r := lexgen.TokenizeShared(text)
+		if !diverged && !lexgen.SameRun(r, lexgen.TokenizeContextShared(text)) {
+			diverged = true
+		}
+		return r
+	})
 	if len(fs) > 0 && !allCapped(c, fs) {
 		fs, out = eval(lexgen.Tokenize)
 	}
 	c.Outcome(out)
 	emit(c, fs)
+	if diverged {
+		fs2, out2 := eval(lexgen.TokenizeContext)
+		c.Outcome("TokenizeContext-differs:" + out2)
+		for i := range fs2 {
+			fs2[i].sig += "@TokenizeContext"
+			fs2[i].msg = "via TokenizeContext (Tokenize reads the same text differently): " + fs2[i].msg
+		}
+		emit(c, fs2)
+	}
 }
 
 var reQuoted = regexp.MustCompile(`'[^']*'|"[^"]*"|\([^)]*\)|[0-9]+`)
@@ -376,7 +397,7 @@ func Check() *common.Check {
 		Level: "exploration",
 		Rule: "the whole lexical space of C04 (all lexeme pairs x 7 (quick) / 43 (thorough) separator classes, reduced triples, every lexeme first/last, keywords, comment catalogue x placement, 3-lexeme multi-line layouts with blank lines, " +
 			"indentation, CRLF, tabs, comments before tokens, multi-line and non-ASCII literals): every token, end marker and comment is checked for 1-based, Start<=End<=next.Start, non-decreasing, inside the input, exact line, " +
-			"exact column on ASCII tab-free lines; error locations: unterminated literal/comment x prefix layouts, every lexeme x every rejected hostile byte x 3 placements, and the first N statements of every sqlgen section " +
+			"exact column on ASCII tab-free lines; all strings of <=3 (quick) / <=4 (thorough) fragments over the 37-fragment alphabet with the reference lexer's offsets as expected spans; error locations: unterminated literal/comment x prefix layouts, every lexeme x every rejected hostile byte x 3 placements, and the first N statements of every sqlgen section " +
 			"(N=40 quick / 150 thorough) x 4 layouts x {control byte, backslash} inserted at every token boundary (tokenizer error) and a stray ']' inserted at every token boundary (ParseFromModelTokensWithPositions error); " +
 			"distinct = distinct case key; non-trivial = multi-line, or containing a comment, tab, non-ASCII character or multi-line literal, or an error-location case",
 		Assume: []string{
@@ -423,6 +444,35 @@ func enumerate(e *common.Enum) {
 			c.Sample(in.Text)
 			report(c, func(tok func(string) lexgen.Run) ([]fail, string) { return evalInput(in, tok) })
 			if nonTrivial(in) {
+				c.NonTrivial()
+			}
+		})
+	})
+
+	// (1b) all strings of up to N fragments that the reference lexer reads without ambiguity: the same
+	// position oracle, with the reference lexer's offsets as the expected spans
+	maxLen := 3
+	if e.Thorough() {
+		maxLen = 4
+	}
+	lexgen.FragStrings(maxLen, func(key, text string, n int) {
+		key = "F|" + key
+		if !e.Mine(key) {
+			return
+		}
+		r := lexgen.RefLex(text)
+		if r.Ambig != "" || r.Err != nil {
+			e.Count("frag:no-verdict-or-invalid", 1)
+			return
+		}
+		in := lexgen.FromRef(text, r)
+		e.Do(key, func(c *common.Ctx) {
+			c.Input(text)
+			report(c, func(tok func(string) lexgen.Run) ([]fail, string) {
+				fs, out := evalInput(in, tok)
+				return fs, "frag:" + out
+			})
+			if n > 1 {
 				c.NonTrivial()
 			}
 		})
